@@ -68,7 +68,7 @@ def cases(tier, inst):
             yield ("c03", c)
     seen = set()
     for c in c10.cases(tier, inst):
-        k = c[:4]
+        k = c[:-1]              # without the caching flag
         if k not in seen:
             seen.add(k)
             yield ("c10", k)
@@ -105,7 +105,8 @@ def observe(fam, c, inst, caching):
         wspec, pre, allsel = (c03.GRID if c[0] == "x" else c03.RICH), (), True
         qs = [qn, qnn]
     elif fam == "c10":
-        q, wspec, pre, allsel = c10.query_of(c + (caching,)), c10.wspec_of(c + (caching,)), (c10.VU,), True
+        q, wspec, pre = c10.query_of(c + (caching,)), c10.wspec_of(c + (caching,)), (c10.VU,)
+        allsel = c[0] != "free2" or len(c[3]) == 2
         qs = [q]
     elif fam == "c15":
         n, f, wspec = c15.queries_of(c)
